@@ -138,6 +138,11 @@ impl Obs {
     fn take(&mut self, rig: &mut OutRig, out: &mut CaseOut) -> Vec<Vec<u8>> {
         let mut new = vec![];
         for t in rig.take_tx() {
+            if std::env::var("VERIF_TRACE").is_ok() {
+                if let Tx::Fragment { bytes, t, .. } = &t {
+                    println!("  [tx @{}] {} bytes {:02x?}", t, bytes.len(), &bytes[..bytes.len().min(12)]);
+                }
+            }
             match t {
                 Tx::Fragment { bytes, .. } => {
                     if bytes.len() >= 2 && bytes[1] == func::UNSOLICITED_RESPONSE {
@@ -166,12 +171,16 @@ impl Obs {
     }
 }
 
-async fn do_between(rig: &mut OutRig, b: &Between, serial: &mut u32, points: u8) {
+async fn do_between(rig: &mut OutRig, b: &Between, serial: &mut u32, points: u8, outstanding_seq: Option<u8>) {
     match b {
         Between::Nothing => {}
         Between::WrongConfirm(s) => {
-            // a solicited confirm whose number matches nothing outstanding (13 is never used by the harness' responses here)
-            rig.send(&Fragment::confirm(13 ^ (s & 1), false));
+            // a solicited confirm whose number matches nothing outstanding
+            let wrong = match outstanding_seq {
+                Some(q) => (q + 1 + (s % 15)) & 0x0F,
+                None => s & 0x0F,
+            };
+            rig.send(&Fragment::confirm(wrong, false));
             rig.settle().await;
         }
         Between::Update(k) => {
@@ -317,7 +326,7 @@ async fn run_case(case: &Case) -> CaseOut {
             break;
         }
         if let Some(b) = case.between.get(i as usize) {
-            do_between(&mut rig, b, &mut serial, case.points).await;
+            do_between(&mut rig, b, &mut serial, case.points, series_seq).await;
             let _ = obs.take(&mut rig, &mut out);
             // a solicited series or unsolicited wait may have timed out meanwhile; that is fine, the rules below are conditional
         }
